@@ -638,3 +638,73 @@ Definition ready_wait_arms (mode : ready_deadline) (k : nat) : nat :=
 Definition ready_deadline_ok (mode : ready_deadline) : bool := match mode with RFixed => true | _ => false end.
 Definition only_ignored (evs : list (N * wev)) : bool :=
   forallb (fun x => match snd x with WIgnored => true | _ => false end) evs.
+
+(* ---------------------------------------------------------------------------------------------
+   The progress file (cmd/reload.go writeSignalProgressBytesFile): every answer is written by
+   create staging file / write / rename onto the path / remove staging file.  A tiny file system:
+   directory name -> inode, inode -> the writers whose bytes are in it.  Name 0 is the progress file;
+   writer w stages through name [stg w].  How the source chooses the staging name is regenerated. *)
+Inductive staging := SUnique (* os.CreateTemp with a pattern: a fresh name per writer *)
+                   | SShared (* one fixed name, opened with truncate *)
+                   | SUnknown.
+Definition staging_name (m : staging) (w : nat) : nat := match m with SUnique => S w | _ => 1 end.
+
+Record pw_state := {
+  pw_dir : list (nat * nat);          (* name -> inode *)
+  pw_inodes : list (list nat);        (* inode -> writers whose bytes it holds *)
+  pw_pc : list nat;                   (* per writer: 0 create, 1 write, 2 rename, 3 remove, 4 done *)
+  pw_fd : list nat;                   (* per writer: inode of its open staging file *)
+  pw_lost : bool                      (* some rename failed: that answer was never published *)
+}.
+Definition pw_lookup (d : list (nat * nat)) (n : nat) : option nat :=
+  match find (fun x => Nat.eqb (fst x) n) d with Some x => Some (snd x) | None => None end.
+Definition pw_unlink (d : list (nat * nat)) (n : nat) := filter (fun x => negb (Nat.eqb (fst x) n)) d.
+(* inode 0 holds the record that was there before (writer 99) *)
+Definition pw_init (writers : nat) : pw_state :=
+  Build_pw_state [(0, 0)] [[99]] (repeat 0 writers) (repeat 0 writers) false.
+
+Definition pw_step (m : staging) (s : pw_state) (w : nat) : pw_state :=
+  let n := staging_name m w in
+  match nth_error (pw_pc s) w with
+  | Some 0 =>  (* create (unique name: new file; fixed name: open, truncating what is there) *)
+      match pw_lookup (pw_dir s) n with
+      | Some i => Build_pw_state (pw_dir s) (upd (pw_inodes s) i []) (upd (pw_pc s) w 1) (upd (pw_fd s) w i) (pw_lost s)
+      | None => let i := length (pw_inodes s) in
+                Build_pw_state ((n, i) :: pw_dir s) (pw_inodes s ++ [[]]) (upd (pw_pc s) w 1) (upd (pw_fd s) w i) (pw_lost s)
+      end
+  | Some 1 =>  (* write through the open descriptor *)
+      let i := nth w (pw_fd s) 0 in
+      Build_pw_state (pw_dir s) (upd (pw_inodes s) i (nth i (pw_inodes s) [] ++ [w])) (upd (pw_pc s) w 2) (pw_fd s) (pw_lost s)
+  | Some 2 =>  (* rename staging -> progress file: atomic replace, fails when the staging name is gone *)
+      match pw_lookup (pw_dir s) n with
+      | Some i => Build_pw_state ((0, i) :: pw_unlink (pw_unlink (pw_dir s) n) 0) (pw_inodes s) (upd (pw_pc s) w 3) (pw_fd s) (pw_lost s)
+      | None => Build_pw_state (pw_dir s) (pw_inodes s) (upd (pw_pc s) w 3) (pw_fd s) true
+      end
+  | Some 3 =>  (* deferred remove of the staging name *)
+      Build_pw_state (pw_unlink (pw_dir s) n) (pw_inodes s) (upd (pw_pc s) w 4) (pw_fd s) (pw_lost s)
+  | _ => s
+  end.
+
+(* what a reader of the progress file sees: Some w = exactly the complete record of writer w *)
+Definition pw_read (s : pw_state) : option nat :=
+  match pw_lookup (pw_dir s) 0 with
+  | Some i => match nth i (pw_inodes s) [] with [w] => Some w | _ => None end
+  | None => None
+  end.
+
+(* every reader sees a complete record at all times; when all writers are done no rename was lost *)
+Fixpoint pw_safe (m : staging) (s : pw_state) (sched : list nat) : bool :=
+  match pw_read s with
+  | None => false
+  | Some _ =>
+      match sched with
+      | [] => negb (forallb (Nat.eqb 4) (pw_pc s)) || negb (pw_lost s)
+      | w :: rest => pw_safe m (pw_step m s w) rest
+      end
+  end.
+
+Fixpoint all_seqs (n : nat) (len : nat) : list (list nat) :=
+  match len with
+  | O => [[]]
+  | S l => flat_map (fun tl => map (fun w => w :: tl) (seq 0 n)) (all_seqs n l)
+  end.
